@@ -1064,6 +1064,7 @@ func TestVerifC05(t *testing.T) {
 	getProxyStats()
 	out := vlib.Open("C05")
 	defer out.Close()
+	out.Note("C05: scripted fault-injecting connections against halfPipe (corpus, exhaustive small scripts, random) and Proxy (scripted client, loopback covert)")
 	if rp := vlib.Replay(); rp != "" {
 		c05Replay(t, out, rp)
 		return
